@@ -46,11 +46,45 @@ func cohortOf(r *gen.RNG, neg bool, c *big.Int, e int) ref.Bits {
 	return ref.Encode(neg, cc, ee)
 }
 
+// wide35 returns a 35-digit coefficient (10^34 .. Cmax), biased to the ends of that interval.
+func wide35(r *gen.RNG) *big.Int {
+	lo := ref.Pow10(34)
+	span := new(big.Int).Sub(ref.Cmax, lo)
+	var c *big.Int
+	switch r.Intn(4) {
+	case 0:
+		c = new(big.Int).Add(lo, big.NewInt(int64(r.Range(0, 1000))))
+	case 1:
+		c = new(big.Int).Sub(ref.Cmax, big.NewInt(int64(r.Range(0, 1000))))
+	default:
+		c = new(big.Int).Mod(r.Digits(34), span)
+		c.Add(c, lo)
+	}
+	return c
+}
+
 func opClasses() []opClass {
 	mkFinite := func(neg bool, kind string) func(r *gen.RNG) ref.Bits {
 		return func(r *gen.RNG) ref.Bits {
 			switch kind {
 			case "frac": // 0 < |v| < 1, never an integer
+				if r.Chance(1, 4) {
+					// full-width members: 34 digits in [0.1,1), 35 digits below 0.1298, and the neighbours of one from below
+					switch r.Intn(3) {
+					case 0:
+						c := r.Digits(34)
+						c.Or(c, ref.One)
+						return ref.Encode(neg, c, -34-r.Pick(0, 0, 1, 7))
+					case 1:
+						c := wide35(r)
+						c.Or(c, ref.One)
+						return ref.Encode(neg, c, -35-r.Pick(0, 0, 1, 7))
+					default:
+						n := r.Pick(34, 34, 33, 20, 5)
+						c := new(big.Int).Sub(ref.Pow10(n), big.NewInt(int64(r.Pick(1, 1, 2, 3, 7))))
+						return ref.Encode(neg, c, -n)
+					}
+				}
 				c := r.Digits(r.Range(1, 30))
 				if new(big.Int).Mod(c, ref.Ten).Sign() == 0 {
 					c.Add(c, ref.One)
@@ -60,6 +94,24 @@ func opClasses() []opClass {
 			case "one":
 				return cohortOf(r, neg, big.NewInt(1), 0)
 			case "nonint": // > 1, not an integer
+				if r.Chance(1, 4) {
+					// full-width members just above one: 35-digit coefficients at exponent -34 (1 < |v| < 1.2981),
+					// 34-digit coefficients at exponent -33, and 1 + k units in the last place
+					switch r.Intn(3) {
+					case 0:
+						c := wide35(r)
+						c.Or(c, ref.One)
+						return ref.Encode(neg, c, -34)
+					case 1:
+						c := r.Digits(34)
+						c.Or(c, ref.One)
+						return ref.Encode(neg, c, -33)
+					default:
+						n := r.Pick(34, 33, 33, 20, 5)
+						c := new(big.Int).Add(ref.Pow10(n), big.NewInt(int64(r.Pick(1, 1, 2, 3, 7))))
+						return ref.Encode(neg, c, -n)
+					}
+				}
 				k := r.Range(1, 6)
 				c := r.Digits(k + r.Range(1, 12))
 				if new(big.Int).Mod(c, ref.Ten).Sign() == 0 {
@@ -70,7 +122,10 @@ func opClasses() []opClass {
 				}
 				return cohortOf(r, neg, c, -k)
 			case "odd": // odd integer > 1
-				c := r.Digits(r.Pick(1, 1, 2, 5, 18, 30))
+				c := r.Digits(r.Pick(1, 1, 2, 5, 18, 30, 34))
+				if r.Chance(1, 12) {
+					c = wide35(r)
+				}
 				if c.Bit(0) == 0 {
 					c.Add(c, ref.One)
 				}
@@ -83,9 +138,12 @@ func opClasses() []opClass {
 					c := r.Digits(r.Range(1, 20))
 					return ref.Encode(neg, c, r.Pick(1, 2, 5, 30, 300)) // positive exponent: even
 				}
-				c := r.Digits(r.Pick(1, 2, 5, 18, 30))
+				c := r.Digits(r.Pick(1, 2, 5, 18, 30, 34))
+				if r.Chance(1, 12) {
+					c = wide35(r)
+				}
 				if c.Bit(0) == 1 {
-					c.Add(c, ref.One)
+					c.Sub(c, ref.One)
 				}
 				if c.Cmp(big.NewInt(2)) < 0 {
 					c = big.NewInt(2)
@@ -486,7 +544,7 @@ func runC15(c *Ctx) {
 	classes := opClasses()
 	c.Parallel("classes", ref.NearestEven, func(sh *mon.Shard, r *gen.RNG) {
 		j := &specJudge{ctx: c, sh: sh}
-		reps := c.N(12, 120)
+		reps := c.N(30, 120)
 		idx := 0
 		for rep := 0; rep < reps; rep++ {
 			for a := range classes {
